@@ -33,15 +33,23 @@ Profiles == {[src |-> AnySrc, rport |-> 0, tmpl |-> <<>>]}
 \* callback behaviours: quiet, raising on the 1st / 2nd invocation, freeing / disabling / enabling a responder
 \* (possibly itself) from inside the callback, and combinations
 Act(o, i) == [op |-> o, i |-> i]
-Beh(rk, acts) == [rk |-> rk, acts |-> acts]
+Beh(rk, acts) == [rk |-> rk, acts |-> acts, ar |-> 4]
+WithAr(b, n) == [b EXCEPT !.ar = n]
 Behs == IF PathsMode
         THEN {Quiet} \cup {Beh(0, <<Act(o, i)>>) : o \in (IF Mode = "paths" THEN {"free"} ELSE {"free", "disable"}), i \in 1..3}
         ELSE {Quiet, Beh(1, <<>>), Beh(0, <<Act("free", 1)>>)} \cup (IF Mode = "base" THEN {} ELSE {Beh(1, <<Act("disable", 2)>>)})
              \cup (IF Rich THEN {Beh(2, <<>>), Beh(0, <<Act("enable", 1)>>), Beh(0, <<Act("free", 2)>>), Beh(0, <<Act("disable", 3)>>),
                                  Beh(0, <<Act("free", 3)>>), Beh(0, <<Act("disable", 1)>>),
                                  Beh(1, <<Act("enable", 2), Act("free", 1)>>), Beh(2, <<Act("free", 3)>>)} ELSE {})
-Creates == {[op |-> "create", kind |-> k, path |-> p, src |-> f.src, rport |-> f.rport, tmpl |-> f.tmpl, os |-> FALSE, beh |-> b] :
-               k \in (IF Mode = "paths" THEN {"matching"} ELSE {"exact", "matching"}), p \in Paths, f \in Profiles, b \in Behs}
+\* the ARITY of the callback (1..4 declared parameters, 0 = *args) crossed with the filter profiles
+\* (exhaustive modes: arity rides on the behaviours - raise@1 declares one parameter, "free 1" two - at no extra
+\* cost in states; arity being irrelevant to the model, the replay of simulated behaviours re-draws the arity of every
+\* function at random (every such assignment is again a behaviour of this model: ArityTransparent))
+Arities == {9}
+ArOf(b, n) == IF n # 9 THEN n ELSE IF b.rk = 1 /\ b.acts = <<>> THEN 1 ELSE IF b.acts # <<>> /\ b.rk = 0 THEN 2 ELSE 4
+Creates == {[op |-> "create", kind |-> k, path |-> p, src |-> f.src, rport |-> f.rport, tmpl |-> f.tmpl, os |-> FALSE, beh |-> WithAr(b0, ArOf(b0, n))] :
+               n \in Arities, b0 \in Behs,
+               k \in (IF Mode = "paths" THEN {"matching"} ELSE {"exact", "matching"}), p \in Paths, f \in Profiles}
 \* message addresses: literal, wildcard forms (some match several registered paths: /* -> /a /b, /a* -> /a /ab,
 \* /?* -> all three), a prefix of /ab, a malformed pattern
 MAddrs == IF PathsMode THEN (IF Mode = "paths" THEN {<<47, 97, 42>>, <<47, 63, 42>>} ELSE {A, <<47, 42>>, <<47, 97, 42>>, <<47, 63, 42>>})
@@ -108,6 +116,12 @@ NoRemovalDuringDelivery ==
     [][op'.op = "recv" => [k \in 1..Len(last') |-> last'[k].r] = Fire(st, op'.m, op'.src, op'.via)]_vars
 \* a fault in a callback is invisible: the same history with callbacks that never raise gives the same
 \* invocations and the same state
+\* callback arity is irrelevant to delivery: with every function declaring all four parameters the same responders
+\* run, in the same order, and the state is the same
+NoAr(s) == [s EXCEPT !.rs = [i \in 1..Len(s.rs) |-> [s.rs[i] EXCEPT !.beh.ar = 4]]]
+ArityTransparent ==
+    [][op'.op = "recv" => LET q == Deliver(NoAr(st), <<op'.m>>, 1, op'.src, op'.via, <<>>) IN
+                          q.log = last' /\ q.st = NoAr(st')]_vars
 NoRk(s) == [s EXCEPT !.rs = [i \in 1..Len(s.rs) |-> [s.rs[i] EXCEPT !.beh.rk = 0]]]
 FaultTransparent ==
     [][op'.op = "recv" => LET q == Deliver(NoRk(st), <<op'.m>>, 1, op'.src, op'.via, <<>>) IN
